@@ -219,7 +219,18 @@ def fun_exprs(Tn):
         out += [f, T.plus(ty)(f, N(1)), T.times(ty)(f, f), T.minus(ty)(N(2), f)]
         if Tn == 'nat':
             out.append(Const('Suc', TFun(ty, ty))(f))
+    if Tn == 'real':
+        # real powers with real numeral exponents (library: x ^ 0 = 1 also for x = 0, 0 ^ p = 0 for p != 0)
+        bases = [N(0), N(2), T.minus(ty)(N(2), N(2)), N(Fraction(1, 2)), N(-1), T.times(ty)(N(0), N(3))]
+        exps = [N(0), N(1), N(2), N(-1), T.minus(ty)(N(3), N(3)), N(-2), T.plus(ty)(N(1), N(1))]
+        rp = Const('power', TFun(ty, ty, ty))
+        for b in bases:
+            for e in exps:
+                pw = rp(b, e)
+                out += [pw, T.plus(ty)(N(5), pw), T.times(ty)(pw, N(2))]
     nums = [N(k) for k in (range(0, 4) if Tn == 'nat' else range(-2, 4))]
+    if Tn == 'real':
+        nums += [N(5), N(6), N(Fraction(1, 2)), N(Fraction(1, 4))]
     _E[key] = (out, nums)
     return _E[key]
 
